@@ -13,6 +13,8 @@ compilation-path model (lean/MakoModel/Paths8/Model.lean) is parameterised by:
                                     - whether the three sets codegen prints (to_write, argument_declared, the declared
                                       identifiers of a <% %> block) and the names of the NameConflictError messages are
                                       walked through sorted() (then the generated module does not depend on PYTHONHASHSEED);
+* `sourceStripsOneBom`              - ModuleInfo.source removes a utf-8 byte order mark with startswith + slice
+                                      (exactly one, only as a prefix) before decoding;
 * `directoriesKeepOrder`            - TemplateLookup.__init__ builds self.directories as a list comprehension over
                                       util.to_list(directories) (search order = configuration order);
 * `headerFormats`                   - the format strings of the `self.printer.writeline(...)` calls of
@@ -180,6 +182,30 @@ def _directories_keep_order(repo):
     raise RegenError("%s: shape of `self.directories = ...` not understood: %s" % (rel, ast.dump(v)[:160]))
 
 
+def _source_strips_one_bom(tt):
+    """ModuleInfo.source: the bytes are relieved of a utf-8 byte order mark by
+         if data.startswith(codecs.BOM_UTF8): data = data[len(codecs.BOM_UTF8):]
+    (exactly one BOM, only as a prefix) -> True; any other treatment of the BOM (strip/lstrip/replace, a loop) -> False;
+    no mention of the BOM at all -> RegenError"""
+    cls = find_class(tt, "ModuleInfo", TEMPLATE)
+    fn = find_func(cls.body, "source", TEMPLATE)
+    mentions = [n for n in ast.walk(fn) if _dotted(n) == "codecs.BOM_UTF8"]
+    if not mentions:
+        raise RegenError("ModuleInfo.source: no treatment of codecs.BOM_UTF8 found")
+    exact = 0
+    for n in ast.walk(fn):
+        if isinstance(n, ast.If) and isinstance(n.test, ast.Call) and _dotted(n.test.func) == "data.startswith" \
+                and len(n.test.args) == 1 and _dotted(n.test.args[0]) == "codecs.BOM_UTF8" and not n.orelse \
+                and len(n.body) == 1 and isinstance(n.body[0], ast.Assign) and _dotted(n.body[0].targets[0]) == "data":
+            v = n.body[0].value
+            if isinstance(v, ast.Subscript) and _dotted(v.value) == "data" and isinstance(v.slice, ast.Slice) \
+                    and v.slice.upper is None and v.slice.step is None and isinstance(v.slice.lower, ast.Call) \
+                    and _dotted(v.slice.lower.func) == "len" and _dotted(v.slice.lower.args[0]) == "codecs.BOM_UTF8":
+                exact += 1
+    # every mention of the BOM must belong to that one statement (test + slice = 2 mentions)
+    return exact == 1 and len(mentions) == 2
+
+
 @group("Paths8")
 def gen(repo) -> str:
     tt = parse(repo, TEMPLATE)
@@ -240,6 +266,9 @@ def gen(repo) -> str:
            "def codeBlockNamesSorted : Bool := %s" % b(c_sorted),
            "/-- both `NameConflictError` messages join `sorted(illegal_names)` -/",
            "def conflictMessagesSorted : Bool := %s" % b(m_sorted), "",
+           "/-- `ModuleInfo.source`: `if data.startswith(codecs.BOM_UTF8): data = data[len(codecs.BOM_UTF8):]` - exactly one",
+           "    byte order mark is removed, and only as a prefix (false: the BOM is treated in some other way) -/",
+           "def sourceStripsOneBom : Bool := %s" % b(_source_strips_one_bom(tt)), "",
            "/-- `TemplateLookup.__init__`: `self.directories` is a list built in the order of the configured directories",
            "    (false: it goes through a set, so the search order is the set's iteration order) -/",
            "def directoriesKeepOrder : Bool := %s" % b(_directories_keep_order(repo)), "",
